@@ -685,7 +685,8 @@ theorem C09_loop_counters_in_body (E : Env) (k : Option Bytes) (v : Bytes) (n i 
     evalExpr E (.attr (.var (b "loop")) (b "last")) s = .ok (.bool (i + 1 == n), s) ∧
     evalExpr E (.attr (.var (b "loop")) (b "length")) s = .ok (.int n, s) := by
   intro s
-  have hm' : s.ctx.hasVar (b "loop") = true ∨ s.ctx.getMacro (b "loop") = none :=
+  have hm' : s.ctx.hasVar (b "loop") = true ∨
+      (getKV (b "loop") E.globals = none ∧ s.ctx.getMacro (b "loop") = none) :=
     .inl (loopBind_hasVar_loop k v n i kv st)
   obtain ⟨h1, h2, h3, h4, h5, h6, h7⟩ := C09_loop_meta i n
   simp only [evalExpr_var_attr hm', s, loopBind_getVar_loop, h1, h2, h3, h4, h5, h6, h7, and_self]
@@ -771,6 +772,42 @@ theorem C09_set_persists (k : Option Bytes) (v : Bytes) (n j : Nat) (kv : Val ×
     (h : x ≠ b "loop") (hv : x ≠ v) (hk : ∀ kk, k = some kk → x ≠ kk) :
     (loopBind k v n (j + 1) kv endOfPrev).ctx.getVar x = endOfPrev.ctx.getVar x :=
   loopBind_getVar_other k v n (j + 1) kv endOfPrev x h hv hk
+
+/-- **`C09_set_shadows_global`**: after `{% set x = e %}` the name `x` evaluates to the assigned value —
+    whatever engine globals are registered (`Engine.AddGlobal`), in particular a global also called `x`,
+    and whatever macros are visible: the assignment lands in the context's own map, and the context
+    chain is consulted before the globals (and before the macros).  `E` itself is arbitrary (it may
+    hold globals, also while `e` is evaluated); `g` ranges over every other global table. -/
+theorem C09_set_shadows_global {E : Env} {go : Go} {tpl : Bytes} {x : Bytes} {e : Expr} {st st1 : St} {v : Val}
+    (h : evalExpr E e st = .ok (v, st1)) :
+    ∃ st', renderNode E go tpl (.setN x e) st = .ok ([], st') ∧
+      ∀ (g : List (Bytes × Val)) (ap : Bool),
+        evalX { E with globals := g } ap (.var x) st' = .ok ((v, []), st') := by
+  refine ⟨_, C09_set_node h, fun g ap => ?_⟩
+  rw [evalX_var, readVar_of_hasVar (Ctx.hasVar_setVar_same _ _ _), Ctx.getVar_setVar_same]
+
+/-- the same for any successful run of the node: the value read back is the value `e` had -/
+theorem C09_set_shadows_global_run {E : Env} {go : Go} {tpl : Bytes} {x : Bytes} {e : Expr} {st st' : St} {o : Bytes}
+    (h : renderNode E go tpl (.setN x e) st = .ok (o, st')) :
+    ∃ v st1, evalExpr E e st = .ok (v, st1) ∧
+      ∀ (g : List (Bytes × Val)) (ap : Bool),
+        evalX { E with globals := g } ap (.var x) st' = .ok ((v, []), st') := by
+  rw [renderNode_set] at h
+  obtain ⟨⟨v, st1⟩, h1, h⟩ := bind_ok h
+  cases h
+  refine ⟨v, st1, h1, fun g ap => ?_⟩
+  rw [evalX_var, readVar_of_hasVar (Ctx.hasVar_setVar_same _ _ _), Ctx.getVar_setVar_same]
+
+-- non-vacuity: a global `x` (byte 120) = 7 is read before the set, the assigned 1 after it
+example :
+    evalX { tpls := [], globals := [([120], .int 7)] } true (.var [120]) ⟨{}, [], 0⟩ = .ok ((.int 7, []), ⟨{}, [], 0⟩) ∧
+    ∃ st', renderNode { tpls := [], globals := [([120], .int 7)] } (fun _ _ => .error .fuel) [] (.setN [120] (.int 1))
+        ⟨{}, [], 0⟩ = .ok ([], st') ∧
+      evalX { tpls := [], globals := [([120], .int 7)] } true (.var [120]) st' = .ok ((.int 1, []), st') := by
+  refine ⟨rfl, ?_⟩
+  obtain ⟨st', h1, h2⟩ := C09_set_shadows_global (E := { tpls := [], globals := [([120], .int 7)] })
+    (go := fun _ _ => .error .fuel) (tpl := []) (x := [120]) (e := .int 1) (st := ⟨{}, [], 0⟩) (st1 := ⟨{}, [], 0⟩) rfl
+  exact ⟨st', h1, h2 _ true⟩
 
 /-! ## maps are key-sorted -/
 
